@@ -90,7 +90,11 @@ def contract_case(task):
     with contextlib.redirect_stdout(buf):
         try:
             s = Solver(p, SolverParameters(eps=0.0, r=2.0, itersLimit=max(1, pre + extra)))
-            s.AddListener(make_listener_class(mask, events)())
+            cls0 = make_listener_class(mask, events)
+            if task.get("deep"):
+                # a listener two levels below the base class that inherits its callbacks from the intermediate class
+                cls0 = type("Grandchild", (type("Child", (cls0,), {}),), {"extra_attribute": 1})
+            s.AddListener(cls0())
             twin_events = None
             if task.get("twin"):
                 # a second, distinct listener object that compares equal to the first (value semantics, e.g. a dataclass)
@@ -133,6 +137,7 @@ def contract_case(task):
             return [f"N={N}: listener overriding {over}, batches {list(comp)} then Solve: {type(e).__name__}: {e}"]
     over = {c for b, c in enumerate(CALLBACKS) if mask >> b & 1}
     ctx = f"N={N}: listener overriding {sorted(over)}, batches {list(comp)} then Solve(+{extra})" + \
+          (", listener class two levels below Listener" if task.get("deep") else "") + \
           (f", objective fails at evaluation {fault_at}" if fault_at else "") + (", unrelated solver in between" if other else "")
     if twin_events is not None:
         strip = lambda evs: [(e[0],) + tuple(e[1:2]) if e[0] == "OnEndIteration" else (e[0],) for e in evs if e[0] != "eval"]
@@ -360,6 +365,7 @@ def run(ctx):
                             if 0 not in comp and extra == 2 and mask in (2, 7, 15) and n >= 1:
                                 tasks.append(dict(N=N, mask=mask, comp=list(comp), extra=extra, other=True))
                                 tasks.append(dict(N=N, mask=mask, comp=list(comp), extra=extra, twin=True))
+                                tasks.append(dict(N=N, mask=mask, comp=list(comp), extra=extra, deep=True))
                             if 0 not in comp and extra == 2 and mask in (2, 15) and n >= 2:
                                 for fa in range(2, n + 1):
                                     tasks.append(dict(N=N, mask=mask, comp=list(comp), extra=extra, fault_at=fa))
